@@ -1,0 +1,35 @@
+//go:build verif
+
+package queue
+
+import "strconv"
+
+// VerifTryConsume performs the non-blocking consume step of a consumer group (the unexported
+// consume()): the public Consume() parks on the queue's condition variable while nothing is
+// available, which a sequential verification harness cannot call. Only compiled with -tags verif.
+func VerifTryConsume(cg ConsumerGroup) int64 { return cg.consume() }
+
+// VerifPeek returns the in-memory positions (queue appended / acknowledged, group consumed /
+// acknowledged; cg may be nil) without taking a lock and without passing an instrumented atomic
+// operation, so that a schedule-exploration harness can evaluate an invariant at one instant.
+// ok is false if fq / cg are not the package's own implementations.
+func VerifPeek(fq FanOutQueue, cg ConsumerGroup) (appended, queueAck, consumed, ack int64, ok bool) {
+	f, ok1 := fq.(*fanOutQueue)
+	if !ok1 {
+		return 0, 0, 0, 0, false
+	}
+	q, ok2 := f.queue.(*queue)
+	if !ok2 {
+		return 0, 0, 0, 0, false
+	}
+	p := func(s string) int64 { v, _ := strconv.ParseInt(s, 10, 64); return v }
+	appended, queueAck = p(q.appendedSeq.String()), p(q.acknowledgedSeq.String())
+	if cg != nil {
+		g, ok3 := cg.(*consumerGroup)
+		if !ok3 {
+			return 0, 0, 0, 0, false
+		}
+		consumed, ack = p(g.consumedSeq.String()), p(g.acknowledgedSeq.String())
+	}
+	return appended, queueAck, consumed, ack, true
+}
